@@ -167,5 +167,19 @@ def run(ctx):
         for t, v in fields:
             if t == "mpint":
                 check_mpint(ctx, v)
+    # long strings: lengths around every power of two up to a few MiB (limits inside the reader), each
+    # followed by more fields so that a short read shows up as a framing error too
+    big = sorted({(1 << k) + d for k in range(12, 23) for d in (-1, 0, 1, 17)} | {3 * (1 << 20) + 17})
+    for i, ln in enumerate(big):
+        if not ctx.mine(i):
+            continue
+        body = rng.randbytes(ln)
+        for t in ("string", "text"):
+            v = body if t == "string" else body.decode("latin-1").encode("latin-1").decode("latin-1")
+            fields = [("u32", 7), (t, v), ("mpint", -(1 << 31)), ("string", b"tail"), ("bool", True)]
+            ctx.case(("bigstr", t, ln), nontrivial=True)
+            ctx.count("long_string_fields_checked")
+            check_sequence(ctx, fields)
+    ctx.require("long_string_fields_checked", 4)
     ctx.require("mpint_encodings_compared", 1000)
     ctx.require("fields_read_back", 1000)
